@@ -398,7 +398,56 @@ func RunSnapLife(s *Scen, r *vk.Rand, a, b int, bin, base string, want int, full
 	cl.event("replica %d rebuilt; checkpoint now %s", x.Idx, cl.C.VerifState().Checkpoint)
 	// the cleaners' turn: watch every replica's chain while the write stream goes on
 	cw := startChainWatcher(cl)
+	// on one replica (not the rebuilt one) the first merge is cut short: the sfold child its sync agent starts for the
+	// cleaner dies at its second write into the parent file (strace follows the agent's children and delivers
+	// SIGKILL there). The cleaner has to take that as a failed deletion - the snapshot stays, a later tick merges it
+	// again from the start - and not remove a snapshot that was folded only in part.
+	var y *RepProc
+	for _, p := range cl.Reps {
+		if p != x && p.agent != nil && p.agent.Process != nil {
+			y = p
+			break
+		}
+	}
+	foldKills := make(chan int, 1)
+	stopFK := make(chan struct{})
+	if y != nil {
+		logp := filepath.Join(cl.Base, "foldkill.log")
+		when := 1 + (s.Case/100)%2 // the first write (nothing merged yet) or the second (merged in part)
+		in, err := attachInjector(y.agent.Process.Pid, "pwrite64", fmt.Sprintf("pwrite64:signal=SIGKILL:when=%d", when), logp)
+		if err != nil {
+			y = nil
+			foldKills <- 0
+		} else {
+			go func() {
+				n := 0
+				for end := time.Now().Add(100 * time.Second); time.Now().Before(end); time.Sleep(100 * time.Millisecond) {
+					b, _ := os.ReadFile(logp)
+					if n = strings.Count(string(b), "killed by SIGKILL"); n > 0 {
+						break
+					}
+					select {
+					case <-stopFK:
+						end = time.Now()
+					default:
+					}
+				}
+				in.detach()
+				if keep := os.Getenv("VERIF_DEV_KEEP"); keep != "" {
+					b, _ := os.ReadFile(logp)
+					os.MkdirAll(keep, 0755)
+					os.WriteFile(filepath.Join(keep, "foldkill.log"), b, 0644)
+				}
+				foldKills <- n
+			}()
+		}
+	} else {
+		foldKills <- 0
+	}
 	deadline := time.Now().Add(time.Duration(70+65*(want-1)) * time.Second)
+	if y != nil {
+		deadline = deadline.Add(65 * time.Second) // y's first merge is cut short; it merges one tick later
+	}
 	for time.Now().Before(deadline) {
 		done := true
 		for _, p := range cl.Reps {
@@ -421,6 +470,11 @@ func RunSnapLife(s *Scen, r *vk.Rand, a, b int, bin, base string, want int, full
 	time.Sleep(1500 * time.Millisecond) // let a removal that was just observed finish on the other replicas' side
 	ws.Stop()
 	cw.Stop()
+	close(stopFK)
+	if n := <-foldKills; n > 0 {
+		s.Res.Count("merges_cut_short_by_a_killed_fold_process", int64(n))
+		cl.event("%d sfold processes of replica %d were killed at a write into the parent file", n, y.Idx)
+	}
 	cw.mu.Lock()
 	evs := append([]removalEvent(nil), cw.events...)
 	s.Res.Count("replica_chain_samples", cw.samples)
